@@ -5,6 +5,8 @@ Model: PartituraModel/Model/Merge.lean (`merge_parts` after the repairs fixes/C1
 the sounding rows of `note_array`).  `image m L ps i p e` is where element `e` of the `i`-th part `p` ends
 up: `xform m (ctxAt L ps i p) e`, the loop state `ctxAt` being the multiplier `L / p.divs` and the sums, over
 the earlier parts, of their maximal voices / maximal staves / numbers of distinct staves.
+`allElems p` are the elements of part `p` together with the objects that are on its timeline by their end only
+(`p.tails`, e.g. a slur whose start is not in the score): the voice / staff statements cover both.
 Hypotheses named in the statements (Proofs/C15Defs.lean, Proofs/C15Sound.lean):
   NumberedFrom1  voice and staff numbers start from 1
   OidsDistinct   every object occurs once           TiesClosed  a note is tied to notes of its own part
@@ -77,8 +79,8 @@ theorem time_preserved (m : Mode) (ps : List APart) (hpos : ∀ p ∈ ps, 0 < p.
 
 /-- voice mode: notes (and rests) of different inputs never share a voice -/
 theorem voices_disjoint (L : Nat) (ps : List APart) (hnum : NumberedFrom1 ps) (i j : Nat) (p q : APart)
-    (hp : ps[i]? = some p) (hq : ps[j]? = some q) (hij : i ≠ j) (a b : Elem) (ha : a ∈ p.elems)
-    (hb : b ∈ q.elems) (hga : isGeneric a.cls = true) (hgb : isGeneric b.cls = true) (va vb : Nat)
+    (hp : ps[i]? = some p) (hq : ps[j]? = some q) (hij : i ≠ j) (a b : Elem) (ha : a ∈ allElems p)
+    (hb : b ∈ allElems q) (hga : isGeneric a.cls = true) (hgb : isGeneric b.cls = true) (va vb : Nat)
     (hva : a.voice = some va) (hvb : b.voice = some vb) :
     (image .voice L ps i p a).voice ≠ (image .voice L ps j q b).voice := by
   have h1a := (hnum p (List.mem_of_getElem? hp) a ha).1 va hva
@@ -105,10 +107,10 @@ theorem staves_untouched (L : Nat) (ps : List APart) (i : Nat) (p : APart) (a : 
 /-- staff mode: elements that carry a staff (notes, rests, words, directions, clefs) of different inputs never
 share a staff; a missing staff counts as staff 1 -/
 theorem staves_disjoint (L : Nat) (ps : List APart) (hnum : NumberedFrom1 ps) (i j : Nat) (p q : APart)
-    (hp : ps[i]? = some p) (hq : ps[j]? = some q) (hij : i ≠ j) (a b : Elem) (ha : a ∈ p.elems)
-    (hb : b ∈ q.elems) (hsa : withStaff a.cls = true) (hsb : withStaff b.cls = true) :
+    (hp : ps[i]? = some p) (hq : ps[j]? = some q) (hij : i ≠ j) (a b : Elem) (ha : a ∈ allElems p)
+    (hb : b ∈ allElems q) (hsa : withStaff a.cls = true) (hsb : withStaff b.cls = true) :
     (image .staff L ps i p a).staff ≠ (image .staff L ps j q b).staff := by
-  have one_le : ∀ (r : APart) (e : Elem), r ∈ ps → e ∈ r.elems → 1 ≤ e.staff.getD 1 := by
+  have one_le : ∀ (r : APart) (e : Elem), r ∈ ps → e ∈ allElems r → 1 ≤ e.staff.getD 1 := by
     intro r e hr he
     cases hs : e.staff with
     | none => simp
@@ -137,8 +139,8 @@ theorem voices_untouched (L : Nat) (ps : List APart) (i : Nat) (p : APart) (a : 
 
 /-- auto mode: staves of different inputs are disjoint (no assumption on the numbering) -/
 theorem staves_disjoint_auto (L : Nat) (ps : List APart) (i j : Nat) (p q : APart)
-    (hp : ps[i]? = some p) (hq : ps[j]? = some q) (hij : i ≠ j) (a b : Elem) (ha : a ∈ p.elems)
-    (hb : b ∈ q.elems) (hsa : withStaff a.cls = true) (hsb : withStaff b.cls = true) :
+    (hp : ps[i]? = some p) (hq : ps[j]? = some q) (hij : i ≠ j) (a b : Elem) (ha : a ∈ allElems p)
+    (hb : b ∈ allElems q) (hsa : withStaff a.cls = true) (hsb : withStaff b.cls = true) :
     (image .auto L ps i p a).staff ≠ (image .auto L ps j q b).staff := by
   simp only [image, auto_mode_staff _ _ hsa, auto_mode_staff _ _ hsb, ctxAt_nPrev, ctxAt_uS, ne_eq,
     Option.some.injEq]
@@ -147,8 +149,8 @@ theorem staves_disjoint_auto (L : Nat) (ps : List APart) (i j : Nat) (p q : APar
   · have := auto_staff_lt (q := p) h hq hb hsb (a.staff.getD 1); omega
 
 /-- auto mode: within one input, staves are shared after merging iff they were before -/
-theorem staves_kept_auto (L : Nat) (ps : List APart) (i : Nat) (p : APart) (a b : Elem) (ha : a ∈ p.elems)
-    (hb : b ∈ p.elems) (hsa : withStaff a.cls = true) (hsb : withStaff b.cls = true) :
+theorem staves_kept_auto (L : Nat) (ps : List APart) (i : Nat) (p : APart) (a b : Elem) (ha : a ∈ allElems p)
+    (hb : b ∈ allElems p) (hsa : withStaff a.cls = true) (hsb : withStaff b.cls = true) :
     a.staff.getD 1 = b.staff.getD 1
       ↔ (image .auto L ps i p a).staff = (image .auto L ps i p b).staff := by
   simp only [image, auto_mode_staff _ _ hsa, auto_mode_staff _ _ hsb, ctxAt_nPrev, ctxAt_uS,
@@ -159,8 +161,8 @@ theorem staves_kept_auto (L : Nat) (ps : List APart) (i : Nat) (p : APart) (a b 
     exact rank_inj (staff_mem_uStaves ha hsa) (staff_mem_uStaves hb hsb) (by omega)
 
 /-- auto mode: within one input, voices are shared after merging iff they were before -/
-theorem voices_kept_auto (L : Nat) (ps : List APart) (i : Nat) (p : APart) (a b : Elem) (ha : a ∈ p.elems)
-    (hb : b ∈ p.elems) (hga : isGeneric a.cls = true) (hgb : isGeneric b.cls = true) :
+theorem voices_kept_auto (L : Nat) (ps : List APart) (i : Nat) (p : APart) (a b : Elem) (ha : a ∈ allElems p)
+    (hb : b ∈ allElems p) (hga : isGeneric a.cls = true) (hgb : isGeneric b.cls = true) :
     a.voice = b.voice ↔ (image .auto L ps i p a).voice = (image .auto L ps i p b).voice := by
   simp only [image, auto_mode_voice _ _ hga, auto_mode_voice _ _ hgb, ctxAt_nPrev, ctxAt_uV]
   cases hva : a.voice with
@@ -180,8 +182,8 @@ staff* (`4 * nStaves`), which is the documented assumption of the numbering ("we
 Missing for the full property: parts with more voices; `auto_overflow_witness` shows they do collide. -/
 theorem voices_disjoint_auto_partial (L : Nat) (ps : List APart)
     (h4 : ∀ p ∈ ps, (uVoices p).length ≤ 4 * nStaves p) (i j : Nat) (p q : APart)
-    (hp : ps[i]? = some p) (hq : ps[j]? = some q) (hij : i ≠ j) (a b : Elem) (ha : a ∈ p.elems)
-    (hb : b ∈ q.elems) (hga : isGeneric a.cls = true) (hgb : isGeneric b.cls = true) (va vb : Nat)
+    (hp : ps[i]? = some p) (hq : ps[j]? = some q) (hij : i ≠ j) (a b : Elem) (ha : a ∈ allElems p)
+    (hb : b ∈ allElems q) (hga : isGeneric a.cls = true) (hgb : isGeneric b.cls = true) (va vb : Nat)
     (hva : a.voice = some va) (hvb : b.voice = some vb) :
     (image .auto L ps i p a).voice ≠ (image .auto L ps j q b).voice := by
   simp only [image, auto_mode_voice _ _ hga, auto_mode_voice _ _ hgb, hva, hvb, Option.map_some,
@@ -304,7 +306,7 @@ example : ∃ es, mergeParts .voice [exA, exB] = some (.merged 12 es)
     ∧ ∃ e' ∈ es, discard .voice e'.cls = true := ⟨_, rfl, by decide⟩
 
 /-- hypotheses of the disjointness theorems: two different parts, a note with a voice in each -/
-example : ∃ a ∈ exA.elems, ∃ b ∈ exB.elems, [exA, exB][0]? = some exA ∧ [exA, exB][1]? = some exB
+example : ∃ a ∈ allElems exA, ∃ b ∈ allElems exB, [exA, exB][0]? = some exA ∧ [exA, exB][1]? = some exB
     ∧ isGeneric a.cls = true ∧ isGeneric b.cls = true ∧ withStaff a.cls = true ∧ withStaff b.cls = true
     ∧ a.voice = some 1 ∧ b.voice = some 1 := by decide
 
@@ -316,7 +318,7 @@ example : iterParts (.one (.part exA)) = [exA] ∧ iterParts (.one (.group [.par
 the first part and the voice of the second part the same number - the conclusion of
 `voices_disjoint_auto_partial` fails where its assumption of at most 4 voices per staff does. -/
 theorem auto_overflow_witness :
-    ∃ a ∈ exC.elems, ∃ b ∈ exD.elems, isGeneric a.cls = true ∧ isGeneric b.cls = true
+    ∃ a ∈ allElems exC, ∃ b ∈ allElems exD, isGeneric a.cls = true ∧ isGeneric b.cls = true
       ∧ a.voice = some 5 ∧ b.voice = some 1 ∧ NumberedFrom1 [exC, exD]
       ∧ ¬ ((uVoices exC).length ≤ 4 * nStaves exC)
       ∧ (image .auto 2 [exC, exD] 0 exC a).voice = (image .auto 2 [exC, exD] 1 exD b).voice := by
